@@ -146,3 +146,14 @@ proof fn unique_match(rs: Seq<ApiEndpointVersions>, v: Version, i: int, j: int)
     if j < i { assert(in_range(rs[j], v) && in_range(rs[i], v)); assert(shared(rs[j], rs[i])); }
 }
 
+
+// TRUSTED: the meaning of #[derive(PartialEq)] on the two version-range types is structural equality
+// (needed for `endpoint.versions != ApiEndpointVersions::All` in HttpRouter::insert)
+impl PartialEqSpecImpl for OrderedVersionPair {
+    open spec fn obeys_eq_spec() -> bool { true }
+    open spec fn eq_spec(&self, other: &Self) -> bool { *self == *other }
+}
+impl PartialEqSpecImpl for ApiEndpointVersions {
+    open spec fn obeys_eq_spec() -> bool { true }
+    open spec fn eq_spec(&self, other: &Self) -> bool { *self == *other }
+}
